@@ -927,7 +927,26 @@ XMLCh* XMLPlatformUtils::weavePaths(const XMLCh* const    basePath
 
     removeDotSlash(tmpBuf, manager);
 
+    // RFC 2396 5.2 step 6d: a trailing "." segment is removed
+    XMLSize_t len = XMLString::stringLen(tmpBuf);
+    if (len >= 2 && tmpBuf[len-1] == chPeriod && isAnySlash(tmpBuf[len-2]))
+        tmpBuf[--len] = 0;
+
     removeDotDotSlash(tmpBuf, manager);
+
+    // RFC 2396 5.2 step 6f: a trailing "<segment>/.." is removed, where
+    // <segment> is a complete path segment not equal to ".."
+    len = XMLString::stringLen(tmpBuf);
+    if (len >= 3 && tmpBuf[len-1] == chPeriod && tmpBuf[len-2] == chPeriod
+                 && isAnySlash(tmpBuf[len-3]))
+    {
+        XMLSize_t seg = len - 3;    // becomes the start of <segment>
+        while (seg > 0 && !isAnySlash(tmpBuf[seg-1]))
+            seg--;
+        if (seg > 0 && !(len - 3 - seg == 2 && tmpBuf[seg] == chPeriod
+                                            && tmpBuf[seg+1] == chPeriod))
+            tmpBuf[seg] = 0;
+    }
 
     return tmpBuf;
 
